@@ -19,12 +19,13 @@ Section Inner.
       | Some w =>
           do _ <- from_ok V (base + voff);
           do buf' <- sc depth w (base + voff) buf;
-          arr_cmp_loop f depth (i + 1) len base (joff + 4) (voff + je_len w) buf'
+          arr_cmp_loop f depth (i + 1) len base (joff + CVA_JSTEP) (voff + je_len w) buf'
       end
     else Ok buf
     end.
   Definition array_cmp_w (depth len base : N) (buf : list N) : res (list N) :=
-    arr_cmp_loop (S (length V)) depth 0 len base 0 (4 * len) buf.
+    (* initial offsets and stride: generated from array_convert_to_comparable (gen/Constants.v, CVA_...) *)
+    arr_cmp_loop (S (length V)) depth 0 len base CVA_JOFF (CVA_VOFF len) buf.
 
   Fixpoint obj_cmp_loop (kws : list N) (depth base joff koff voff : N) (buf : list N) : res (list N) :=
     match kws with
@@ -37,13 +38,14 @@ Section Inner.
         | Some w =>
             do _ <- from_ok V (base + voff);
             do buf2 <- sc depth w (base + voff) buf1;
-            obj_cmp_loop r depth base (joff + 4) (koff + je_len kw) (voff + je_len w) buf2
+            obj_cmp_loop r depth base (joff + CVO_JSTEP2) (koff + je_len kw) (voff + je_len w) buf2
         end
     end.
   Definition object_cmp_w (depth len base : N) (buf : list N) : res (list N) :=
-    match rd_words (S (length V)) V 0 len base with
+    (* generated from object_convert_to_comparable (CVO_...); the first loop advanced jentry_offset by CVO_JSTEP1 per key *)
+    match rd_words (S (length V)) V 0 len (base + CVO_JOFF) with
     | None => Ok buf
-    | Some kws => obj_cmp_loop kws depth base (4 * len) (8 * len) (8 * len + sum_je_len kws) buf
+    | Some kws => obj_cmp_loop kws depth base (CVO_JOFF + CVO_JSTEP1 * len) (CVO_KOFF len) (CVO_VOFF len + sum_je_len kws) buf
     end.
 End Inner.
 
@@ -57,11 +59,11 @@ Fixpoint scalar_cmp_w (fuel : nat) (V : list N) (depth w off : N) (buf : list N)
     | Some h =>
         let len := hdr_len h in
         if hdr_type h =? ARRAY_CONTAINER_TAG then
-          do _ <- from_ok V (off + 4);
-          array_cmp_w V (scalar_cmp_w f V) (sat1 depth) len (off + 4) (buf0 ++ [ARRAY_LEVEL])
+          do _ <- from_ok V (off + CVC_ARR_SKIP);                    (* &value[4..]: generated (CVC_...) *)
+          array_cmp_w V (scalar_cmp_w f V) (sat1 depth) len (off + CVC_ARR_SKIP) (buf0 ++ [ARRAY_LEVEL])
         else if hdr_type h =? OBJECT_CONTAINER_TAG then
-          do _ <- from_ok V (off + 4);
-          object_cmp_w V (scalar_cmp_w f V) (sat1 depth) len (off + 4) (buf0 ++ [OBJECT_LEVEL])
+          do _ <- from_ok V (off + CVC_OBJ_SKIP);
+          object_cmp_w V (scalar_cmp_w f V) (sat1 depth) len (off + CVC_OBJ_SKIP) (buf0 ++ [OBJECT_LEVEL])
         else Ok buf0
     end
   else
